@@ -503,7 +503,41 @@ func (c *Ctx) Ite(cnd, a, b *Term) *Term {
 	if cnd.Op == ONot {
 		return c.Ite(cnd.Args[0], b, a)
 	}
+	if a.Sort == Bool {
+		// factor common conjuncts: ite(c, X and R, Y and R) == R and ite(c, X, Y)
+		ca, cb := conjuncts(a), conjuncts(b)
+		inB := map[*Term]bool{}
+		for _, t := range cb {
+			inB[t] = true
+		}
+		var common, ra []*Term
+		isCommon := map[*Term]bool{}
+		for _, t := range ca {
+			if inB[t] {
+				common = append(common, t)
+				isCommon[t] = true
+			} else {
+				ra = append(ra, t)
+			}
+		}
+		if len(common) > 0 {
+			var rb []*Term
+			for _, t := range cb {
+				if !isCommon[t] {
+					rb = append(rb, t)
+				}
+			}
+			return c.And(append(common, c.Ite(cnd, c.And(ra...), c.And(rb...)))...)
+		}
+	}
 	return c.mk(OIte, a.Sort, cnd, a, b)
+}
+
+func conjuncts(t *Term) []*Term {
+	if t.Op == OAnd {
+		return t.Args
+	}
+	return []*Term{t}
 }
 
 // ---------- bitvector constructors ----------
